@@ -160,6 +160,8 @@ package frame
 //@   ensures  [not-in-dialect] old(specFrameMessage(fr)) != nil && !old(specIsRaw(specFrameMessage(fr))) &&
 //@              (w.DialectRW == nil || !ufDialectHas(w.DialectRW, old(specFrameMessage(fr).GetID()))) ==> err != nil && logLen() == 0
 //@   ensures  [at-most-one] logLen() <= 1
+//@   ensures  [error-is-transport-error] logLen() == 1 ==> err == logErr(0) && logCallee(0, "io.Writer.Write")
+//@   ensures  [nothing-written-is-an-error] logLen() == 0 ==> err != nil
 //@   ensures  [whole-frame] logLen() == 1 ==> specRawOK(fr) && logN(0) == specFrameLen(fr) &&
 //@              (forall j int :: 0 <= j && j < specFrameLen(fr) ==> logByte(0, j) == specFrameWire(fr, j))
 //@   ensures  [raw-message-kept] old(specFrameMessage(fr)) != nil && old(specIsRaw(specFrameMessage(fr))) ==> specFrameMessage(fr) == old(specFrameMessage(fr))
